@@ -35,7 +35,9 @@ def _is_strict(env: dict[str, Any]) -> bool:
         return False
 
 
-def match_resource(rdef: dict[str, Any], resource: dict[str, Any]) -> bool:
+def match_resource(
+    rdef: dict[str, Any], resource: dict[str, Any], *, strict: bool | None = None
+) -> bool:
     if not isinstance(rdef, dict):
         return False
     if not rdef:
@@ -51,9 +53,9 @@ def match_resource(rdef: dict[str, Any], resource: dict[str, Any]) -> bool:
     res_id = resource.get("id")
     res_attrs = resource.get("attrs") or resource.get("attributes") or {}
 
-    strict = _is_strict(
-        resource if "__strict_types__" in resource else {}
-    )  # will be overridden below if env provided
+    if strict is None:
+        # legacy: flag carried by the resource dict itself
+        strict = _is_strict(resource if "__strict_types__" in resource else {})
 
     # type check
     if r_type is not None:
@@ -420,7 +422,10 @@ def evaluate(
             reason = "action_mismatch"
             continue
         rdef = rule.get("resource") or {}
-        if not match_resource(rdef, env.get("resource") or {}):
+        # strict mode is selected by the evaluation environment (Guard(strict_types=True))
+        if not match_resource(
+            rdef, env.get("resource") or {}, strict=True if _is_strict(env) else None
+        ):
             reason = "resource_mismatch"
             continue
 
